@@ -104,6 +104,10 @@ CONFIGS = {
     "arch3": dict(N=3, kinds=["plain"], outs=["val"], items=2, grp=1, seeded=True, arch=[True]),
     # a free-standing datasource and a spec meet in one consumer; two implementations of one spec both fail
     "faultsP": dict(N=3, kinds=["datasource", "point"], outs=["val", "crash", "cmd"], items=1, grp=2, ss=[False, True]),
+    # a consumer built directly on a plain datasource that is itself built on a spec, failing: under which
+    # registry points the failure is filed must not depend on the driver (single pass / sub-graphs / pool)
+    "faultsX": dict(N=3, kinds=["datasource", "combiner", "parser", "point"], outs=["val", "crash"], eouts=["val"],
+                    items=1, grp=1, ss=[False]),
     "faults3c": dict(N=3, kinds=["datasource", "combiner", "point"], outs=["val", "content", "timeout", "crash"],
                      items=1, grp=2, ss=[False, True]),
 }
@@ -116,7 +120,7 @@ PLAN = {
                 drivers=["forced", "run", "rerun"]),
     "C03": dict(quick=["faults3q", "faults3c", "elems3"], thorough=["faults3", "faults3b", "faults3c", "faults4", "rules3", "elems3full"],
                 drivers=["forced", "run"]),
-    "C04": dict(quick=["lin4", "oog3", "arch3", "faultsP"], thorough=["lin4", "oog3", "arch3", "faultsP", "seeds3", "faults3q", "shapes3", "miss3q"],
+    "C04": dict(quick=["lin4", "oog3", "arch3", "faultsP", "faultsX"], thorough=["lin4", "oog3", "arch3", "faultsP", "faultsX", "seeds3", "faults3q", "shapes3", "miss3q"],
                 drivers=["forced", "run", "incr", "group", "pool2", "pool3s"],
                 model_only=dict(quick=["pool4a"], thorough=["pool4a", "pool4b", "pool3"])),
 }
